@@ -24,5 +24,10 @@ meta = {
   "verification": ver,
   "detected_by_check": det, "detected_by": by,
 }
+if os.environ.get("DET_BEFORE"):
+    # round 2: what the checks said BEFORE any rule was added or changed in response to this seed
+    meta["detected_before_strengthening"] = os.environ["DET_BEFORE"]
+if os.environ.get("BATTERY_PROPERTY"):
+    meta["battery_property"] = os.environ["BATTERY_PROPERTY"]
 json.dump(meta, open(os.path.join(dst, "meta.json"), "w"), indent=1)
 print("kept", dst)
